@@ -51,12 +51,36 @@ def e2e_plan(mode, witness=False):
     return plan
 
 
+def e2e_fault_plan(W):
+    """minimal mode, a cache fault and a COMMAND-LESS dependant: grp (no command, input f) depends on lib; lib's blob is lost and
+    its output wiped; f and slow's input are edited.  grp's task has to re-make lib while the pool is busy with slow: the
+    command of lib must still count against num_workers."""
+    def plan(h, r):
+        open(os.path.join(h.ws, "grog.toml"), "w").write("num_workers = %d\n" % W)
+        T = lambda name, deps, ins, sleep, nocmd=False: {
+            "k": "t", "pkg": "p", "name": name, "salt": "v0", "ins": ins, "glob": None, "excl": [],
+            "outs": [] if nocmd else [("file", "o_%s.txt" % name)], "deps": deps, "fp": {}, "nocache": False, "multi": False,
+            "beh": "n", "check": False, "comment": "", "sleep": sleep, "nocmd": nocmd}
+        mk = lambda v: {"nodes": [T("lib", [], [], "0.4"), T("grp", [0], ["f.txt"], None, True), T("slow", [], ["s.txt"], "0.8"),
+                                  T("slow2", [], ["s.txt"], "0.8")],
+                        "files": {"p/f.txt": v, "p/s.txt": v}}
+        cfg = {"mode": "min", "cache": True, "workers": W}
+        h.set_sources(mk("v1")); h.build(cfg)
+        h.drop_blob(0, 0)
+        h.perturb(0, 0, "delete")
+        h.set_sources(mk("v2"), "inputs of //p:grp, //p:slow, //p:slow2")
+        h.build(cfg)
+        return [("workers", W), ("faulted", 1)]
+    return plan
+
+
 def e2e_campaign(out, tier):
     """the real binary on generated workspaces, both load_outputs modes, num_workers 1..4 (grog.toml): the O_APPEND trace
     shared by all generated commands must show every command at most once per build, started only after the commands of
     its transitive dependencies that ran in this build have ended, and never more than num_workers commands open."""
     n = 12 if tier == "quick" else 300
     plans = [("e2e-witness-min", e2e_plan("min", True)), ("e2e-witness-all", e2e_plan("all", True))]
+    plans += [("e2e-fault-nocmd-w%d" % W, e2e_fault_plan(W)) for W in (1, 2, 1, 2)]
     plans += [("e2e-min", e2e_plan("min"))] * n + [("e2e-all", e2e_plan("all"))] * n
     batch = hc.run_batch(plans, vlib.seed())
     hc.check_plan_errors(batch)
@@ -79,7 +103,8 @@ def e2e_campaign(out, tier):
             problems = []
             cnt = Counter(l for kd, l in order if kd == "S")
             twice = sorted(l for l, c in cnt.items() if c > 1)
-            if twice:
+            faulted_from = dict((x[0], x[1]) for x in notes if len(x) == 2).get("faulted")
+            if twice and not (faulted_from is not None and bi >= faulted_from):     # "absent cache faults"
                 problems.append("command of %s ran %s times in one build (no cache fault)" % (twice, [cnt[l] for l in twice]))
             ended = set(); started = set(); open_now = 0; peak = 0
             for kd, l in order:
